@@ -49,8 +49,8 @@ ASSUMPTIONS = [
     "middleware: Content-Type values are exact lower-case `text/html[; charset=utf-8]` or clearly non-HTML types",
 ]
 BOUNDS = {
-    "quick": {"docs_rd": 24000, "docs_mw": 6000, "max_segments": 14, "enum_len": 5},
-    "thorough": {"docs_rd": 400000, "docs_mw": 80000, "max_segments": 24, "enum_len": 7},
+    "quick": {"docs_rd": 20000, "docs_mw": 5000, "max_segments": 14, "enum_len": 5},
+    "thorough": {"docs_rd": 200000, "docs_mw": 40000, "max_segments": 24, "enum_len": 7},
 }
 
 HTML_WS = " \t\n\f\r"
